@@ -5,7 +5,7 @@ import ast
 from typing import Dict, List, Optional, Tuple
 
 from .. import clifford as cl
-from ..chains import extract_chains
+from ..chains import extract_chains, positive
 from ..core import AnalysisError, call_attr, call_name, calls_in, func_params, get_kw, norm, parent, short
 from ..driver import Knockout, sub_nth, sub_once
 from ..report import Ctx
@@ -44,8 +44,10 @@ def run_circuit_table(repo) -> Dict[str, Tuple[Optional[str], Optional[str]]]:
         for b in ch:
             if b.parsed and b.subject and b.subject.endswith("[0]") and len(b.literals) == 1:
                 tag = next(iter(b.literals))
-                if len(b.body) == 1 and isinstance(b.body[0], ast.If) and norm(b.body[0].test) == rev:
-                    out[tag] = (fn_of(b.body[0].orelse), fn_of(b.body[0].body))
+                if len(b.body) == 1 and isinstance(b.body[0], ast.If) and norm(positive(b.body[0].test)[0]) == rev:
+                    neg = positive(b.body[0].test)[1]
+                    fwd, bwd = (b.body[0].body, b.body[0].orelse) if neg else (b.body[0].orelse, b.body[0].body)
+                    out[tag] = (fn_of(fwd), fn_of(bwd))
                 elif len(b.body) == 1 and isinstance(b.body[0], ast.Pass):
                     out[tag] = ("identity", "identity")
                 else:
